@@ -134,9 +134,10 @@ class Run:
         self.stage_info.append({"stage": stage, "events": n, "tlc_wall_s": round(res["wall_s"], 1), "shards": res["shards"]})
 
     def require_classes(self, needed, stage):
-        missing = [c for c in needed if self.class_counts.get(c, 0) == 0]
-        if missing:
-            raise MachineryError("vacuous coverage in stage %s: classes never exercised: %s" % (stage, missing))
+        """Deferred: checked by plans.flush() once the queued executions have been validated."""
+        if not hasattr(self, "deferred_classes"):
+            self.deferred_classes = []
+        self.deferred_classes.append((list(needed), stage))
 
 
 def write_replay(run, ev, fails, trace):
@@ -222,6 +223,7 @@ def main(argv=None):
             meta = plans.replay_file(run, a.replay)
         else:
             meta = plans.PLANS[a.prop](run)
+        plans.flush(run)
         known = load_known()
         reported = 0
         seen_known = set()
